@@ -1,7 +1,10 @@
 import Hls.Props.C09
+import Hls.Props.C08Text
 #print axioms Hls.C09.roundedSecs_spec
 #print axioms Hls.C09.validateSegments_iff
 #print axioms Hls.C09.built_durations
 #print axioms Hls.C09.accepted_durations
 #print axioms Hls.C09.too_long_rejected
 #print axioms Hls.C09.rule_whole_seconds
+#print axioms Hls.C08T.ranges_text
+#print axioms Hls.C08T.durations_text
